@@ -37,6 +37,10 @@ structure Cfg where
   flagsBlocking : Nat := 0          -- … and without a timeout (WUNTRACED = 2 / WCONTINUED = 8 would report stops)
   rcBeforeCb : Bool := true         -- `check_gone`: `proc.returncode = returncode` precedes `callback(proc)`
   goneBeforeCb : Bool := true       -- `check_gone`: `gone.add(proc)` precedes `callback(proc)`
+  -- (seeded round 5) WHICH liveness probe the non-child poll asks; obligation `cfg_nonchild_probe` (Model/C15Probe.lean)
+  pollAsksHook : Bool := true       -- `wait_pid`: the ECHILD branch is `while _pid_exists(pid): …sleep…` then `return None`
+  hookDefaultIsKill : Bool := true  -- the default of `_pid_exists` is `_psposix.pid_exists`, which asks `os.kill(pid, 0)` and nothing else
+  linuxWaitPassesNoHook : Bool := true -- `_pslinux.Process.wait` hands `wait_pid` the pid, the timeout and the name only
 
 def Cfg.i0 (c : Cfg) : Rat := (c.i0n : Rat) / (c.i0d : Rat)
 def Cfg.cap (c : Cfg) : Rat := (c.capn : Rat) / (c.capd : Rat)
